@@ -194,7 +194,10 @@ var seqSteps = []bool{false, true, true, false, true}
 //	                  an unknown name — how "reg": Engine.RegisterString (cache on); how "src": the loader serves
 //	                  the other source (cache off, or cache on + auto-reload with a bumped modification time)
 //	kind "syntax"     the template st.Ref that site st refers to is replaced by one with a syntax error (how "src")
-//	kind "loaderfail" the loader fails for every Load of name key[2:] while the fault is on (how "arm", cache off)
+//	kind "loaderfail" the loader fails for every Load of name key[2:] while the fault is on — how "arm": cache off;
+//	                  how "armtouch": cache on + auto-reload, the modification time of that template moves forward
+//	                  whenever the fault is switched (a failing RELOAD of a template the engine has already
+//	                  rendered successfully: the cached copy must not be served with a nil error)
 //	kind "cb"         every invocation of callback `key` fails while the fault is on (how "arm")
 //
 // While the fault is on every render must fail ("" + error, cause reachable); for "loaderfail" and "cb" only
@@ -215,12 +218,16 @@ func seqCase(pr *program, mode, cache, how, kind string, st site, key, want, fau
 	case "loaderfail", "cb":
 		pl = newPlan([]arm{{key, 0}}, false)
 		pl.off = true
+		if how == "armtouch" {
+			target = key[2:]
+		}
 	default:
 		panic("seqCase: " + kind)
 	}
 	ses := open(pr, healthy, mode, "solo", pl, optsFor(cache))
 	defer ses.close()
 	what := kind + "-" + how + "-" + cache
+	armed := how == "arm" || how == "armtouch"
 	o := &vlib.Outcome{Counters: map[string]int64{"switch_cases": 1}}
 	cls := func(x string) string { return pr.pos.group + "/seq/" + what + "/" + x }
 	set := func(on bool) error {
@@ -236,6 +243,9 @@ func seqCase(pr *program, mode, cache, how, kind string, st site, key, want, fau
 			ses.h.mt[target]++
 		case "arm":
 			pl.off = !on
+		case "armtouch":
+			pl.off = !on
+			ses.h.mt[target]++
 		default:
 			panic("seqCase: " + how)
 		}
@@ -271,9 +281,13 @@ func seqCase(pr *program, mode, cache, how, kind string, st site, key, want, fau
 		} else {
 			fired := pl.fired[nb:]
 			switch {
-			case how == "arm" && len(fired) == 0:
+			case armed && len(fired) == 0:
 				// the failing loader / callback was not invoked during this render: nothing failed
-				o.Counters["seq_fault_not_invoked"]++
+				if how == "armtouch" {
+					o.Counters["reload_fault_not_invoked"]++
+				} else {
+					o.Counters["seq_fault_not_invoked"]++
+				}
 				if res.err != nil && res.out != "" && !isWriterMode(mode) {
 					viol, c = fmt.Sprintf("Render returned the error %s together with non-empty output %q", errText(res.err), res.out), "error-with-output"
 				}
@@ -281,12 +295,15 @@ func seqCase(pr *program, mode, cache, how, kind string, st site, key, want, fau
 				viol, c = fmt.Sprintf("the failure was swallowed: err == nil, output %q", res.out), "swallowed"
 			case res.out != "" && !isWriterMode(mode):
 				viol, c = fmt.Sprintf("Render returned the error %s together with non-empty output %q", errText(res.err), res.out), "error-with-output"
-			case how == "arm" && !errors.Is(res.err, fired[0]):
+			case armed && !errors.Is(res.err, fired[0]):
 				viol, c = fmt.Sprintf("the returned error does not wrap the cause %q (errors.Is false): %s", fired[0].Error(), errText(res.err)), "cause-lost"
 			case kind == "syntax" && !chainHas(res.err, syntaxCause):
 				viol, c = fmt.Sprintf("the syntax error of the referenced template (%T %q) cannot be found in the returned error: %s", syntaxCause, syntaxCause.Error(), errText(res.err)), "cause-lost"
 			default:
 				judged++
+				if how == "armtouch" {
+					o.Counters["failed_reloads_judged"]++
+				}
 			}
 		}
 		if viol != "" {
